@@ -322,3 +322,19 @@ def run(repo: Repo, rep: Report, tier: str) -> None:
     flush_rule(repo, rep, "C01.R7")
     size_rule(repo, rep, "C01.R8")
     offset_pad_rule(repo, rep, "C01.R9")
+    # reader / writer agreement rules shared with the properties that anchor them (each is a necessary condition of parse(dumps(v)) == v)
+    from .c02 import leb128_termination_rule
+    from .c05 import call_time_rule
+    from .c09 import offset_base_rule
+
+    leb128_termination_rule(repo, rep, "C01.R10")
+    offset_base_rule(repo, rep, "C01.R11")
+    call_time_rule(repo, rep, "C01.R12")
+    from .c05 import codec_fold_rule
+
+    codec_fold_rule(repo, rep, "C01.R13")
+    from .c06 import mask_rule
+
+    mask_rule(repo, rep, "C01.R14")
+
+
